@@ -12,6 +12,7 @@ import (
 	"time"
 
 	baseerrors "github.com/grailbio/base/errors"
+	"github.com/grailbio/base/retry"
 	"github.com/grailbio/bigmachine/testsystem"
 	"github.com/grailbio/bigslice"
 	"github.com/grailbio/bigslice/exec"
@@ -87,9 +88,13 @@ func startSession(cfg e2eConfig) *e2eSession {
 		sliceio.SpillBatchSize = cfg.spill
 	}
 	exec.DoShuffleReaders = !cfg.noshuf
+	// the production retry policy waits 5s..60s between the 5 attempts to read a task output; the same number of
+	// attempts with short waits keeps runs that legitimately retry (discarded or lost outputs) within the time limit
+	oldRetry := exec.VerifSetRetryPolicy(retry.MaxRetries(retry.Backoff(20*time.Millisecond, 200*time.Millisecond, 2), 5))
 	s := &e2eSession{cfg: cfg}
 	s.undo = func() {
 		defaultsize.Chunk, defaultsize.SortCanary, sliceio.SpillBatchSize, exec.DoShuffleReaders = oldChunk, oldCanary, oldSpill, oldShuf
+		exec.VerifSetRetryPolicy(oldRetry)
 	}
 	opts := []exec.Option{exec.Parallelism(cfg.p)}
 	if cfg.bm {
